@@ -191,3 +191,64 @@ def c20_5(ctx):
     rr = returns_of(o.node)
     if not rr or N(rr[-1].value) != NS("getattr(self.function, 'output', ['data'])"):
         ctx.fail(o, o.node, 'output columns are not function.output (default data)')
+
+
+@obligation('C20.6', 'SIBLING + TABLES (guards by truth table)', 'perdictable._value_output vs perdictable._dict_output; join preliminaries',
+            'the single-value and the multi-output paths make the same decisions: the expiry is joined in as one more defaulted input, missing output columns force evaluation, one joined row without table inputs gives f(...) itself, '
+            'the cached cell is the joined output column, and keys come back as the key columns of the joined rows',
+            axioms=())
+def c20_6(ctx):
+    r = ctx.repo
+    for name in ('_value_output', '_dict_output'):
+        f = r.fn('_perdictable:perdictable.%s' % name)
+        body = [' '.join(U(s).split()) for s in f.body]
+        ctx.count(1, f.where())
+        for need in ('on = ulist(as_list(self.on))', 'inputs[_expiry] = expiry', 'defaults = argspec_defaults(self.function) if self.defaults is None else self.defaults',
+                     'defaults[_expiry] = defaults.get(_expiry, None)', 'ds = join(inputs, on=on, renames=self.renames, defaults=defaults)',
+                     'missing_cols = cols - ds.keys()', 'provided_cols = cols - missing_cols',
+                     'rows = ds if self.output_is_input is True else ds - [key for key in provided_cols if key not in as_list(self.output_is_input)]'):
+            if need not in body:
+                ctx.fail(f, f.node, '%s lacks the step `%s`' % (name, need), stmt='%s lacks %s' % (name, need))
+        expect_guards(ctx, f, [
+            ('len(ds) == 1 and len({k: v for k, v in inputs.items() if is_dictable(v)}) == 0', 'return rows[0][self.function]', 'scalar inputs give f(...) itself'),
+            ('len(missing_cols)', 'run_if_none = [True] * len(ds)', 'a missing output column forces evaluation'),
+            ('self.if_none is False', 'run_if_none = [False] * len(ds)', 'None values are kept unless if_none is set'),
+            ('len(on) > 0', None, 'keyed results carry the key columns'),
+        ][:3], where=[x for x in ast.walk(f.node) if isinstance(x, ast.If)])
+        nn = [s for s in ast.walk(f.node) if isinstance(s, ast.Assign) and U(s.targets[0]) == 'nones']
+        ctx.count(1)
+        if not nn or N(nn[0].value) != NS('ds[cols if self.if_none is True else ds.keys() & as_list(self.if_none)].do(is_none)'):
+            ctx.fail(f, nn[0] if nn else f.node, 'the None test of %s is `%s`' % (name, U(nn[0].value) if nn else '?'))
+        rn = [s for s in ast.walk(f.node) if isinstance(s, ast.Assign) and U(s.targets[0]) == 'run_if_none' and isinstance(s.value, ast.ListComp)]
+        if not rn or N(rn[0].value) != '[max(row.values()) for row in nones]':
+            ctx.fail(f, rn[0] if rn else f.node, 'a row is re-run when ANY of its output cells is None')
+        ks = [s for s in ast.walk(f.node) if isinstance(s, ast.If) and 'len(on)' in U(s.test)]
+        if not ks or not prop_equiv(ks[0].test, 'len(on) > 0')[0]:
+            ctx.fail(f, ks[0] if ks else f.node, 'keyed results are returned when `%s`' % (U(ks[0].test) if ks else '?'))
+    v = r.fn('_perdictable:perdictable._value_output')
+    ctx.count(1)
+    ca = [s for s in ast.walk(v.node) if isinstance(s, ast.Assign) and U(s.targets[0]) == 'cache']
+    if not ca or N(ca[0].value) != NS('ds[col] if col in ds.keys() else [None] * len(ds)'):
+        ctx.fail(v, ca[0] if ca else v.node, 'the cached cells are `%s`, expected the joined output column (None when absent)' % (U(ca[0].value) if ca else '?'))
+    if 'defaults[col] = defaults.get(col, None)' not in [' '.join(U(s).split()) for s in v.body]:
+        ctx.fail(v, v.node, 'the output column is not joined in as a defaulted (outer-joined) input')
+    d = r.fn('_perdictable:perdictable._dict_output')
+    ctx.count(1)
+    em = [s for s in ast.walk(d.node) if isinstance(s, ast.If) and prop_equiv(s.test, 'len(ds) == 0')[0]]
+    if not em or N(em[0].body[0].value) != NS('{key: inputs.get(key, None) for key in cols}'):
+        ctx.fail(d, em[0] if em else d.node, 'an empty join of the multi-output path does not return the supplied outputs')
+    j = r.fn('_perdictable:join')
+    expect_guards(ctx, j, [('len(dictables) == 0', 'return dictable(non_dictables)', 'all-scalar inputs')], where=j.body)
+    ctx.count(1)
+    body = [' '.join(U(s).split()) for s in j.body]
+    for need in ('defaults = {} if defaults is None else defaults', 'renames = renames or {}'):
+        if need not in body:
+            ctx.fail(j, j.node, 'join lacks `%s`' % need, stmt='join lacks ' + need)
+    g = r.fn('_perdictable:_join_dictable_with_defaults')
+    body = [' '.join(U(s).split()) for s in g.body]
+    ctx.count(1)
+    for need in ('def1 = def1 or {}', 'def2 = def2 or {}', 'defaults = {}', 'defaults.update(def1)', 'defaults.update(def2)'):
+        if need not in body:
+            ctx.fail(g, g.node, 'the default join lacks `%s`' % need, stmt='_join_dictable_with_defaults lacks ' + need)
+    w = r.fn('_perdictable:perdictable.wrapped')
+    expect_guards(ctx, w, [('getattr(self.function, _output, None) is None', 'return self._value_output(expiry=expiry, **inputs)', 'single-output functions')], where=w.body)
